@@ -153,14 +153,16 @@ Definition covered_of (c : case) : list string :=
   flat_map (fun a => if changed c (af_name a) then tags_in (k_tags c) (af_bytes a) else []) (k_after c).
 
 (* created or replaced names match the pattern; removed names match it, were
-   generated by the same subcommand, are not all-in-one files, and the run is
-   an all-in-one run *)
+   generated by the same subcommand, are not all-in-one files, the run is an
+   all-in-one run and it created or replaced at least one file (a run that
+   generates nothing supersedes nothing) *)
 Definition P_confined (c : case) : bool :=
   forallb (fun n =>
     negb (changed c n) || leftover_temp c n ||
     (glob (k_cmd c) n &&
      match before_lookup c n, after_lookup c n with
-     | Some b, None => k_clean c && is_gen (k_cmd c) (first_line (fi_bytes b))
+     | Some b, None => k_clean c && existsb (fun a => changed c (af_name a)) (k_after c)   (* something was generated *)
+                       && is_gen (k_cmd c) (first_line (fi_bytes b))
                        && negb (is_aio (first_line (fi_bytes b)))
      | _, _ => true
      end)) (names_of c).
